@@ -65,3 +65,32 @@ contract(BHF, props=['C02', 'C13', 'C14', 'C29'],
     on_raise=[('compression-context-untouched', 'g_enc == enc0', ['C13'])],
     canary='len(result) == 0')
 modular(BHF)
+
+
+# ---------------------------------------------------------------------------
+# H2Stream._process_received_headers -- used MODULARLY by receive_headers / receive_push_promise_in_band
+PRH = ST + '._process_received_headers'
+_PIPE = ('headers, header_validation_flags, self.config.normalize_inbound_headers, '
+         'self.config.validate_inbound_headers, header_encoding')
+
+
+def prh_result(I, loc):
+    """Modular result: the abstract list hdr_in_result(...); pending lazy stages of the argument are forced
+    first, exactly as list(headers) does."""
+    hdrmodel.consume(I, loc['headers'])
+    cfg = I.getattr(loc['self'], 'config')
+    ok, res = hdrmodel.in_pipeline_terms(I, loc['headers'], loc['header_validation_flags'],
+                                         I.getattr(cfg, 'normalize_inbound_headers'),
+                                         I.getattr(cfg, 'validate_inbound_headers'), loc['header_encoding'])
+    return hdrmodel.new_hdr(I, res)
+
+
+contract(PRH, props=['C15', 'C17'],
+    args={'headers': 'hdrlist', 'header_validation_flags': 'hvflags', 'header_encoding': 'optstr'},
+    setup=stream_setup, result=prh_result,
+    ensures=[('delivers-the-pipeline-result', 'result == hdr_in_result(%s)' % _PIPE, ['C15']),
+             ('accepted-only-if-conformant-and-decodable', 'hdr_in_accepts(%s)' % _PIPE, ['C15'])],
+    raises=[dict(exc='ProtocolError', iff=True, props=['C15', 'C17'], when='not hdr_in_accepts(%s)' % _PIPE,
+                 ensures=[('code', 'exc.error_code == PROTOCOL_ERROR', ['C15', 'C18'])])],
+    canary='False')
+modular(PRH)
